@@ -1,6 +1,6 @@
 # executed by tools_manifest.py
 PENDING.update({k: 'check not built yet in this commit (claimed in DESIGN.md section 4; will move to checks when its machinery lands)'
-                for k in ['C11', 'C17']})
+                for k in ['C11']})
 
 check('C09', 'fault_enumeration',
       'For every sampled experiment configuration the complete single-crash space (after every mutating file-system effect x every '
@@ -87,3 +87,14 @@ check('C12', 'exploration',
       'Sampling over pairs, populations, optimizers, hparams and histories; rng-free loss for the APFL and HypCluster pairs; one open known finding (D9).',
       'deterministic simulation: lock-step refinement of two systems over one seeded deployment history with dropout faults',
       'DESIGN.md 2.5, 4 (C12)')
+
+check('C17', 'exploration',
+      'Seeded simulation of multi-round training histories (3-12 rounds) for AgnosticFedAvg, APFL, HypCluster, MimeLite and '
+      'ignore_grads_haiku-inside-FedAvg with the fault kinds the invariants are about - domain blackouts, clusters without clients, '
+      'client and whole-cohort dropout, returning clients, restart between rounds with rebuilt objects - and invariant monitors evaluated '
+      'after every round (every optimizer step for ignore_grads): probability-vector and window model recomputed from the cohorts, '
+      'coefficient box and client-table membership, argmin assignment and per-cluster reference update, clip bounds, bit-identical '
+      'ignored leaves and a shadow base optimizer for the trainable sub-tree.',
+      'Sampling over configurations and histories; rng-free loss for HypCluster; finite well-scaled inputs.',
+      'deterministic simulation: seeded deployment histories with dropout/blackout/restart faults and per-round invariant monitors against reference models',
+      'DESIGN.md 2.5, 4 (C17)')
